@@ -1197,6 +1197,9 @@ class Process(StateMachine, persistence.Savable, metaclass=ProcessStateMachineMe
         """
         if self._interrupt_action is not None:
             self._interrupt_action.cancel()
+            if new_action is not None and isinstance(self._interrupt_action.cookie, process_states.Interruption):
+                # Superseded by a newer request: its interruption, if still under way, is void
+                self._interrupt_action.cookie.void = True  # type: ignore[attr-defined]
         self._interrupt_action = new_action
 
     def _set_interrupt_action_from_exception(self, interrupt_exception: process_states.Interruption) -> None:
@@ -1214,6 +1217,9 @@ class Process(StateMachine, persistence.Savable, metaclass=ProcessStateMachineMe
             if self._pausing is not None:
                 # Not going to pause after all
                 self._pausing.cancel()
+                if isinstance(self._pausing.cookie, process_states.Interruption):
+                    # ... also if the interruption has already been handed to the state
+                    self._pausing.cookie.void = True  # type: ignore[attr-defined]
                 self._pausing = None
                 self._set_interrupt_action(None)
             return True
@@ -1349,7 +1355,11 @@ class Process(StateMachine, persistence.Savable, metaclass=ProcessStateMachineMe
                 # be an interrupt action ready to be executed, so just check if the cookie matches
                 # that of the exception i.e. if it is the _same_ interruption.  If not cancel and
                 # build the interrupt action below
-                if self._interrupt_action is not None:
+                if getattr(exception, 'void', False):
+                    # The request behind this interruption was withdrawn (``play``) or superseded (``kill``) after the
+                    # interruption had been handed to the state: a newer action, if any, stands
+                    pass
+                elif self._interrupt_action is not None:
                     if self._interrupt_action.cookie is not exception:
                         self._set_interrupt_action_from_exception(exception)
                 else:
